@@ -97,8 +97,8 @@ func C19race(tier string) int {
 			}
 		}
 	}
-	cmd1 := []string{`STORE 2 +FLAGS (\Seen)`, `EXPUNGE`, `APPEND`, `MOVE 2 other`, `FETCH 2 (BODY[])`, `CLOSE`, `SELECT other`}
-	cmd2 := []string{"", `STORE 3 +FLAGS (\Flagged)`, `EXPUNGE`, `NOOP`}
+	cmd1 := []string{`STORE 2 +FLAGS (\Seen)`, `EXPUNGE`, `APPEND`, `MOVE 2 other`, `FETCH 1:* (BODY[])`, `SEARCH OR SEEN LARGER 1`, `CLOSE`, `SELECT other`}
+	cmd2 := []string{"", `STORE 3 +FLAGS (\Flagged)`, `EXPUNGE`, `NOOP`, `FETCH 1:* (BODY[])`}
 	var cc []any
 	for _, c1 := range cmd1 {
 		for _, td := range []string{"drop1", "drop2", "logout2", "removeuser", "close"} {
